@@ -27,9 +27,16 @@ Definition rd_u32 (s : stream) : outcome (Z * stream) :=
   | a :: b :: c :: d :: r => Ok (((a * 256 + b) * 256 + c) * 256 + d, r)
   | _ => Err Eof
   end.
-(* ReadCtxt::read_slice(n) (also read_array::<U8>(n)): n is a usize *)
+(* ReadCtxt::read_slice(n) (also read_array::<U8>(n)): n is a usize.  split_at walks the list
+   once (Proofs: split_at s n = Some (take n s, drop n s) iff n <= len s). *)
+Fixpoint split_at (s : stream) (n : Z) : option (list Z * stream) :=
+  if n <=? 0 then Some ([], s)
+  else match s with
+       | [] => None
+       | b :: r => match split_at r (n - 1) with Some (a, t) => Some (b :: a, t) | None => None end
+       end.
 Definition rd_slice (n : Z) (s : stream) : outcome (list Z * stream) :=
-  if n <=? len s then Ok (take n s, drop n s) else Err Eof.
+  match split_at s n with Some r => Ok r | None => Err Eof end.
 (* read_array::<T>(n) with T::SIZE = sz, every item decoded by rd *)
 Fixpoint rd_items {A} (rd : stream -> outcome (A * stream)) (n : nat) (s : stream)
   : outcome (list A * stream) :=
@@ -564,14 +571,14 @@ Definition table_bytes (f : woff2_font) (tag index : Z) : outcome (list Z) :=
 (* HeadTable::read / write: 54 bytes, magic checked, macStyle truncated to its 7 defined bits,
    indexToLocFormat must be 0 or 1; checkSumAdjustment is written as a zero placeholder *)
 Definition read_head (d : list Z) : outcome (list Z * bool) :=
-  if 54 <=? len d then
-    if be_val (take 4 (drop 12 d)) =? 1594834165 then      (* 0x5F0F3CF5 *)
-      let fmt := to_signed 16 (be_val (take 2 (drop 50 d))) in
-      if fmt =? 0 then Ok (take 54 d, false)
-      else if fmt =? 1 then Ok (take 54 d, true)
-      else Err BadValue
-    else Err BadValue
-  else Err Eof.
+  if len d <? 16 then Err Eof
+  else if negb (be_val (take 4 (drop 12 d)) =? 1594834165) then Err BadValue   (* 0x5F0F3CF5 *)
+  else if len d <? 52 then Err Eof
+  else
+    let fmt := to_signed 16 (be_val (take 2 (drop 50 d))) in
+    if negb ((fmt =? 0) || (fmt =? 1)) then Err BadValue
+    else if len d <? 54 then Err Eof
+    else Ok (take 54 d, fmt =? 1).
 Definition write_head (h : list Z) (long : bool) : list Z :=
   take 8 h ++ [0; 0; 0; 0] ++ take 32 (drop 12 h)
   ++ wr_u16 (Z.land (be_val (take 2 (drop 44 h))) 127) ++ take 4 (drop 46 h)
